@@ -25,5 +25,5 @@ Theorem k_jitrestrict_with_count_safe : forall args, Pre_jitrestrict_with_count 
   forall fuel, safe_outcome (run fuel k_jitrestrict_with_count args).
 Proof.
   intros args (d1 & d2 & d3 & ta & s & e & -> & H) fuel.
-  safe_start k_jitrestrict_with_count ann_jitrestrict_with_count. vc.
+  safe_start k_jitrestrict_with_count ann_jitrestrict_with_count. vc k_jitrestrict_with_count ann_jitrestrict_with_count.
 Qed.
